@@ -106,6 +106,41 @@ pub trait SignedIntOps: NumericOps<Primitive = i64> {}
 pub trait UnsignedIntOps: NumericOps<Primitive = u64> {}
 pub trait FloatOps: NumericOps<Primitive = f64> {}
 
+/// Compares an integer with a float by value, without rounding the integer to a float first.
+pub(crate) fn cmp_int_float(i: i128, f: f64) -> Option<Ordering> {
+    if f.is_nan() {
+        return None;
+    }
+    // Every integer variant lies in [-2^63, 2^64)
+    if f >= 18446744073709551616.0 {
+        return Some(Ordering::Less);
+    }
+    if f < -9223372036854775808.0 {
+        return Some(Ordering::Greater);
+    }
+    let whole = f.trunc();
+    match i.cmp(&(whole as i128)) {
+        Ordering::Equal => (0.0f64).partial_cmp(&(f - whole)),
+        other => Some(other),
+    }
+}
+
+/// Exact comparison of two numeric values, each given as its integer value (integer variants)
+/// or its float value (float variants).
+pub(crate) fn numeric_cmp(
+    a_int: Option<i128>,
+    a_float: Option<f64>,
+    b_int: Option<i128>,
+    b_float: Option<f64>,
+) -> Option<Ordering> {
+    match (a_int, b_int) {
+        (Some(x), Some(y)) => Some(x.cmp(&y)),
+        (Some(x), None) => cmp_int_float(x, b_float?),
+        (None, Some(y)) => cmp_int_float(y, a_float?).map(Ordering::reverse),
+        (None, None) => a_float?.partial_cmp(&b_float?),
+    }
+}
+
 /// Arithmetic that reports what the primitive operators would panic on (integer overflow,
 /// division by zero) as [None]. Floating point arithmetic never fails.
 pub trait CheckedArith: Sized {
